@@ -50,6 +50,8 @@ def cases(tier, seed):
             for mid, pc in (((1, 1), (65535, 255), (256, 3)) if n <= 2 else ((7, 5),)):
                 yield {'part': 'move', 'n': n, 'vec': ''.join(vec), 'mid': mid, 'pc': pc, 'dest': True}
     yield {'part': 'move', 'n': 0, 'vec': '', 'mid': 9, 'pc': 1, 'dest': False}
+    for n in (0, 2):
+        yield {'part': 'move', 'n': n, 'vec': 's' * n, 'mid': 77, 'pc': 3, 'dest': True, 'refuse': True}
     for p in range(3 if tier == 'quick' else 4):
         for s in range(4 if tier == 'quick' else 5):
             for order in shuffles(['P'] * p, ['S'] * s):
@@ -84,6 +86,9 @@ def _move_ae(case, log):
     class MoveAE(applicationentity.AE):
         def on_receive_move(self, context, ds, destination):
             log.append(('handler', str(destination)))
+            if case.get('refuse'):
+                from pynetdicom2 import exceptions
+                raise exceptions.EventHandlingError('unknown destination')
             n = case['n']
             gen = iter([dsgen.make('a', i, inst='1.2.9.%d' % (i + 1)) for i in range(n)])
             return ({'aet': 'DEST', 'address': 'dest.host', 'port': 4242} if case['dest'] else None), n, gen
@@ -116,7 +121,7 @@ def run_case(case):
         except Exception as exc:
             viol.append((sig + ':raises:%s' % type(exc).__name__, 'qr_move_scp raised %r after %d responses (%s)' % (
                 exc, len([1 for d, i in link.log if d == 'scp->scu']), where)))
-        n = case['n']
+        n = case['n'] if not case.get('refuse') else 0
         stores = [x[1] for x in log if x[0] == 'store']
         if stores != ['1.2.9.%d' % (i + 1) for i in range(n)]:
             viol.append((sig + ':sub-operations', 'destination received %r for %d supplied instances (%s)' % (stores, n, where)))
@@ -133,6 +138,8 @@ def run_case(case):
                 rsps.append({k: ref_cmd.value(el, t) for k, t in (('st', 0x0900), ('rem', 0x1020), ('comp', 0x1021), ('fail', 0x1022), ('warn', 0x1023), ('mid', 0x0120))})
         pend = [r for r in rsps if r['st'] == 0xFF00]
         fin = [r for r in rsps if r['st'] != 0xFF00]
+        if case.get('refuse') and len(fin) == 1 and statuses.Status(fin[0]['st'], msggen.msg_class('CMoveRSPMessage')).status_type != 'Failure':
+            viol.append((sig + ':refusal-status', 'the application refused the move but the final status is 0x%04X (%s)' % (fin[0]['st'], where)))
         if len(fin) != 1 or (rsps and rsps[-1]['st'] == 0xFF00):
             viol.append((sig + ':final-count:n%s' % ('0' if n == 0 else '+'), '%d final responses (statuses %r) for n=%d (%s)' % (
                 len(fin), ['%04X' % r['st'] if isinstance(r['st'], int) else r['st'] for r in rsps], n, where)))
@@ -173,12 +180,13 @@ def run_case(case):
             return statuses.Status(OUT['s' if o == 's' else 'w'])
     cae = GetAE('SCU', [TS], 16384)
     cae.add_scu(sopclass.qr_get_scu, [GET])
-    svc = assoc.Recorder('store', [CT], store_in_file=case['infile'])
+    MR = '1.2.840.10008.5.1.4.1.1.4'
+    svc = assoc.Recorder('store', [CT, MR], store_in_file=case['infile'])
     cae.add_scu(svc)
     ids = {str(c.sop_class): pc for pc, c in cae.context_def_list.items()}
-    getpc, storepc = ids[GET], ids[CT]
+    getpc, storepc, storepc2 = ids[GET], ids[CT], ids[MR]
     sae = assoc.make_ae('SCP', [TS], 65536, [])
-    link = assoc.Link(sae, cae, {getpc: (GET, TS), storepc: (CT, TS)}, 70, 16384)
+    link = assoc.Link(sae, cae, {getpc: (GET, TS), storepc: (CT, TS), storepc2: (MR, TS)}, 70, 16384)
     link.scu.dul.pump = None
     gen = link.scu.get_scu(GET)(dsgen.make('query'), 31)
     # script of the peer
@@ -190,8 +198,10 @@ def run_case(case):
         else:
             inst = '1.2.7.%d' % (si + 1)
             sent_insts.append(inst)
-            link.scp.send(msggen.make('CStoreRQMessage', sop_class=CT, sop_inst=inst, msg_id=100 + si,
-                                      data_set=dsgen.enc(dsgen.make('b', si, inst=inst), TS)), storepc)
+            # sub-operations alternate between two storage contexts (CT, MR, CT, ...)
+            sop_k, pc_k = ((CT, storepc), (MR, storepc2))[si % 2]
+            link.scp.send(msggen.make('CStoreRQMessage', sop_class=sop_k, sop_inst=inst, msg_id=100 + si,
+                                      data_set=dsgen.enc(dsgen.make('b', si, sop_class=sop_k, inst=inst), TS)), pc_k)
             si += 1
     link.scp.send(msggen.make('CGetRSPMessage', sop_class=GET, msg_id=31, status=case['final']), getpc)
     sentinel_before = len(link.scu.dul.inbox)
@@ -214,7 +224,8 @@ def run_case(case):
             el = ref_cmd.read(cmd)
             if ref_cmd.value(el, 0x0100) == 0x8001:
                 rsps.append((flags[0][0], ref_cmd.value(el, 0x0120), ref_cmd.value(el, 0x1000), ref_cmd.value(el, 0x0900), ref_cmd.value(el, 0x0002)))
-    exp_rsps = [(storepc, 100 + k, '1.2.7.%d' % (k + 1), {'s': 0, 'w': 0xB000, 'e': 0xC000}[vec[k]], CT) for k in range(len(sent_insts))]
+    exp_rsps = [((storepc, storepc2)[k % 2], 100 + k, '1.2.7.%d' % (k + 1), {'s': 0, 'w': 0xB000, 'e': 0xC000}[vec[k]], (CT, MR)[k % 2])
+                for k in range(len(sent_insts))]
     if rsps != exp_rsps:
         kind = 'count' if len(rsps) != len(exp_rsps) else 'fields'
         viol.append((sig + ':store-responses:' + kind, 'C-STORE responses (context, msg id, instance, status, class) %r, expected %r (%s)' % (rsps, exp_rsps, where)))
